@@ -60,6 +60,11 @@ type Scenario struct {
 	PhaseLen  int64  `json:"phase_len"`
 	Fork      bool   `json:"fork"`
 	Byzantine bool   `json:"byzantine"` // party 2 deals a wrong evaluation to the keyper under test and accuses it
+	// Split: every transaction of the other honest keyper lands in a block of its own and party 2
+	// sends its evaluations one block after its commitment, so that the keyper under test reads
+	// blocks whose only DKG event is a PolyEval (then an Accusation, an Apology ...) and every
+	// handler's effect has to reach the database through its own block transaction
+	Split     bool   `json:"split,omitempty"`
 	SchedSeed uint64 `json:"sched_seed"`
 }
 
@@ -255,6 +260,18 @@ func execute(c Case, e *env) (*trace, error) {
 	}
 	defer rig.Close()
 	tr := &trace{c: c, rig: rig, queued: map[int64]obsRow{}, results: map[int][]dkgrig.ResultRow{}, tables: map[string]string{}}
+	if c.S.Split {
+		lastOwn := int64(0) // open height in which party 1 last broadcast
+		rig.Chain.OnBroadcast = func(from string, _ []byte) {
+			if from != rig.Parties[1].Name {
+				return
+			}
+			if rig.Chain.OpenHeight() == lastOwn {
+				rig.Chain.NextBlock()
+			}
+			lastOwn = rig.Chain.OpenHeight()
+		}
+	}
 	rng := vh.NewRNG(c.S.SchedSeed)
 	pending := append([]Crash{}, c.Crashes...)
 	if len(pending) > 0 {
@@ -422,6 +439,8 @@ func execute(c Case, e *env) (*trace, error) {
 	type byzEon struct {
 		poly                   *shcrypto.Polynomial
 		dealt, acc, apo, voted bool
+		evalDue                int64 // Split: the open height from which the evaluations are sent
+		evalSent               bool
 	}
 	bz := map[uint64]*byzEon{}
 	byzAct := func(open int64) {
@@ -439,6 +458,13 @@ func execute(c Case, e *env) (*trace, error) {
 			if !st.dealt && open == S+2 {
 				st.dealt = true
 				rig.SubmitAs(2, shmsg.NewPolyCommitment(ei.Eon, st.poly.Gammas()))
+				st.evalDue = open
+				if c.S.Split {
+					st.evalDue = open + 1
+				}
+			}
+			if st.dealt && !st.evalSent && open >= st.evalDue {
+				st.evalSent = true
 				v0 := st.poly.EvalForKeyper(0)
 				if c.S.Byzantine {
 					v0 = new(big.Int).Mod(new(big.Int).Add(v0, big.NewInt(1)), order)
@@ -1147,12 +1173,13 @@ func main() {
 	run := vh.Start("Verif.Corr.C08", 12)
 	run.SetPreamble("From Verif Require Import Model.DKGPure Model.DKGDriver Model.Outbox Corr.C07 Corr.C08.\nOpen Scope N_scope.")
 	defer run.Finish()
-	run.Rule = "a complete DKG run of three keypers (one Byzantine party that makes the keyper under test accuse, be accused and apologise) on real keyper stacks; per case one or two crash points of the keyper under test: before database message k, after the commit carried by message k was applied, before / after its b-th broadcast reached shuttermint; quick: every database message next to a begin/commit, every 9th other message, every broadcast; thorough: every database message, every broadcast and 2000 sampled pairs; non-trivial = the crash happened; distinct by the JSON rendering of the case"
+	run.Rule = "a complete DKG run of three keypers (one Byzantine party that makes the keyper under test accuse, be accused and apologise) on real keyper stacks, four schedules (plain, fork, second config, split: every transaction of the other honest keyper in a block of its own, so that blocks carry a single PolyEval / Accusation / Apology); after every loop iteration of the keyper under test its cache is compared with a fresh load of a copy of its database; per case one or two crash points of the keyper under test: before database message k, after the commit carried by message k was applied, before / after its b-th broadcast reached shuttermint; quick: every database message next to a begin/commit, every 9th other message, every broadcast; thorough: every database message, every broadcast and 2000 sampled pairs; non-trivial = the crash happened; distinct by the JSON rendering of the case"
 
 	scenarios := []Scenario{
 		{Name: "dkg", PhaseLen: 7, Byzantine: true, SchedSeed: 11},
 		{Name: "dkg", PhaseLen: 7, Byzantine: false, Fork: true, SchedSeed: 12},
 		{Name: "second-config", PhaseLen: 7, Byzantine: true, SchedSeed: 13},
+		{Name: "dkg", PhaseLen: 9, Byzantine: true, Split: true, SchedSeed: 14},
 	}
 	var cases []Case
 	if run.Replay != "" {
